@@ -8,6 +8,7 @@ sys.path.insert(0, os.path.dirname(os.path.abspath(__file__)))
 from common import BUILD_DIR  # noqa: E402
 
 RULES = {
+    "rich": "whole unedited load/save cycles bytes -> decoded -> rich -> decoded -> bytes: the three fixture CHKs, N generated editor-form maps (STR one entry per id in order, UPUS consistent, 255-slot MRGN; variants: 64-slot retail MRGN, editor-prefilled UPRP with zero UPUS) and N/2 valid-but-not-editor-form maps (shared / unsorted string offsets, unused ids, several ids for one text, gaps), every map with STR, MRGN (named/unnamed/empty slots), UPRP+UPUS, SWNM, WAV, UNIS/UNIx (custom names, weapon damage), TRIG with every supported action/condition type of the specification table plus unsupported types and empty entries, unknown and enum-only sections between them; plus one deterministic witness per recorded finding.  Each map is cycled twice by the real code and once by the Lean driver (op cycle, byte-compared); oracles read both byte strings with the independent reader harness/refchk.py (game view: every string reference resolved to its text, locations by coordinates, CUWP slots by content, triggers by resolved arguments; structural validity; pass-through sections and unsupported trigger entries in place); distinct_nontrivial = distinct input byte strings",
     "fileops": "every scenario is one real call in its own process on copies of the corpus archives with the real StormLib: C15 = 5 entry points x destination {absent, existing, same path as source} x flag {default, false, true} (+ empty / non-empty audio batch), hashes of base, destination and an unnamed neighbour file before/after; C16 = for save / audio import / read, destination absent and pre-existing: a fault-free run records the ordered archive-library and file-system calls, then EVERY call is made to fail before and after taking effect (copies also part-way) and base hash, destination hash, temp dir and destination dir listings are checked; C17 = save (unedited and 2/40(/200) added triggers) and audio import over every corpus archive, member listing and per-member hashes, stored scenario vs encoder bytes, reload equality, and WAV duration on generated headers vs the Lean driver (wavms); distinct_nontrivial = distinct scenario specs",
     "imports": "exhaustive: every module of the package (discovered from the file system with pkgutil, 369 today) is imported as the first and only import of a fresh interpreter (16 in parallel); the four registries' key sets, whether each factory module got loaded, and the number of registrable transcoder classes are compared with the Lean driver's import1 result and with the ids of the concrete model classes enumerated in that interpreter; distinct_nontrivial = number of modules",
     "alloc": "per editor (locations, unit-property slots, WAV entries) N generated (occupancy, batch) pairs: occupancy in {empty, sparse, full, full-but-one, only-the-reserved-slot-free, reserved occupied}; batch items in {new, index-less duplicate of a stored value, already placed, carrying a free index, carrying an occupied index with other content, carrying an out-of-range index}; the real editor runs with its set-building helper wrapped so the iteration order is observed and passed to the Lean driver (op alloc); C09: allocation rules checked on the real result, plus SWNM-rebuild scenarios (named/unnamed/referenced switches, full table); C14: every case re-run under up to 24 imposed permutations of the set order, plus whole-save scenarios executed in fresh interpreters under different PYTHONHASHSEED / address padding and compared through a slot-renumbering-invariant digest computed by an independent reader; distinct_nontrivial = distinct (editor, table, batch-in-observed-order) op lines (+ distinct (scenario, hash seed) pairs)",
@@ -69,6 +70,11 @@ def main():
 
         out = generic(imports_h, prop, tier, seed, replay)
         rule = RULES["imports"]
+    elif prop in ("C02", "C03", "C10", "C11"):
+        import rich_h
+
+        out = generic(rich_h, prop, tier, seed, replay)
+        rule = RULES["rich"]
     elif prop == "C12":
         import codecs_h
 
@@ -82,7 +88,9 @@ def main():
         "samples": out.samples,
         "dist": out.dist,
         "disagreements": out.disagreements[:20],
-        "violations": out.violations[:20],
+        "violations": [v for v in out.violations if v.get("key") is None][:20],
+        "known_hits": sorted({v["key"] for v in out.violations if v.get("key") is not None}),
+        "known_samples": list({v["key"]: {k: (x if not isinstance(x, str) or len(x) < 400 else x[:400] + "...") for k, x in v.items()} for v in out.violations if v.get("key") is not None}.values()),
         "known_hits": out.known_hits,
         "notes": out.notes,
         "rule": rule,
